@@ -41,6 +41,8 @@ type c06Plan struct {
 	Faulty     bool            `json:"faulty"`
 	// directed flavours: where the single injected fault may land
 	FaultOn string `json:"fault_on,omitempty"` // "" anywhere | "passive-doc0-write" | "active-doc-writes"
+	// Legacy: the replication speaks the revision-tree (version 3) protocol only
+	Legacy bool `json:"legacy,omitempty"`
 }
 
 const c06Docs = 4
@@ -49,17 +51,41 @@ const c06Docs = 4
 const c06LegacyAccepted = "Sec-Websocket-Protocol: BLIP_3+CBMobile_3"
 
 func init() {
-	verifsim.Register(&verifsim.Property{
-		ID:       "C06",
-		Generate: c06Generate,
-		Config: func(p json.RawMessage) verifsim.Config {
-			var pl c06Plan
-			_ = json.Unmarshal(p, &pl)
-			return pl.Cfg
-		},
-		Run:    c06Run,
-		Shrink: c06Shrink,
-	})
+	// C17S is the system part of C17: the same runs, judged by the checkpoint monitor (c17_mon_test.go) only
+	for _, id := range []string{"C06", "C17S"} {
+		id := id
+		verifsim.Register(&verifsim.Property{
+			ID:       id,
+			Generate: func(seed uint64, tier string, index int) json.RawMessage { return c06GenerateFor(id, seed, tier, index) },
+			Config: func(p json.RawMessage) verifsim.Config {
+				var pl c06Plan
+				_ = json.Unmarshal(p, &pl)
+				return pl.Cfg
+			},
+			Run:    func(env *verifsim.Env, raw json.RawMessage) *verifsim.Violation { return c06RunAs(env, raw, id) },
+			Shrink: c06Shrink,
+		})
+	}
+}
+
+func c06GenerateFor(id string, seed uint64, tier string, index int) json.RawMessage {
+	raw := c06Generate(seed, tier, index)
+	if id != "C17S" {
+		return raw
+	}
+	// the checkpoint monitor judges documents that are written on one side only: give every document one home side
+	var p c06Plan
+	_ = json.Unmarshal(raw, &p)
+	if p.Direction == "pushAndPull" && p.FaultOn == "" {
+		for t := range p.Tasks {
+			for i := range p.Tasks[t] {
+				if k := p.Tasks[t][i].Kind; k == "put" || k == "delete" {
+					p.Tasks[t][i].Side = p.Tasks[t][i].Doc % 2
+				}
+			}
+		}
+	}
+	return mustJSON(p)
 }
 
 func c06Generate(seed uint64, tier string, index int) json.RawMessage {
@@ -68,7 +94,8 @@ func c06Generate(seed uint64, tier string, index int) json.RawMessage {
 	p.Cfg = verifsim.Config{MaxSteps: 120000, Mode: "random", SwitchPermille: []int{150, 300, 600, 900}[r.Intn(4)],
 		ClockPermille: []int{5, 20, 60}[r.Intn(3)], ClockStepsMs: [][]int{{1, 5, 20}, {1, 10, 100, 1000}, {50, 500, 5000}}[r.Intn(3)]}
 	p.Direction = []string{"push", "pull", "pushAndPull", "pushAndPull"}[r.Intn(4)]
-	p.Continuous = true
+	p.Continuous = !r.Chance(250)
+	p.Legacy = r.Chance(300)
 	p.Resolver = "default" // the community edition supports the default resolver only
 	p.Node = restNodeOpts{RevCacheSize: []int{-1, 0}[r.Intn(2)], FeedWorkers: 1, NumVB: 2, SyncFn: `function(doc){ channel("A"); }`}
 	for t := 0; t < r.Range(2, 3); t++ {
@@ -78,8 +105,10 @@ func c06Generate(seed uint64, tier string, index int) json.RawMessage {
 			switch x := r.Intn(40); {
 			case x < 6:
 				op.Kind = "delete"
-			case x < 9:
+			case x < 8:
 				op.Kind = "repl-stop" // the harness starts it again before it judges
+			case x < 9:
+				op.Kind = "repl-reset" // stop, forget the checkpoint, start
 			case x < 13:
 				op.Kind = "sever"
 			case x < 14:
@@ -117,7 +146,7 @@ func c06Generate(seed uint64, tier string, index int) json.RawMessage {
 	case 3:
 		// directed: a write on the sending side stays in flight (its sequence is allocated, the document is not stored
 		// yet) while later documents are sent, checkpointed and the replication is stopped; then the write lands
-		p.Direction, p.Faulty, p.FaultOn = "pull", true, "passive-doc0-write"
+		p.Direction, p.Faulty, p.FaultOn, p.Continuous, p.Legacy = "pull", true, "passive-doc0-write", true, false
 		p.Node.PendingMaxMs = 500
 		p.Tasks = [][]c06Op{
 			{{Kind: "put", Side: 1, Doc: 0}},
@@ -127,7 +156,7 @@ func c06Generate(seed uint64, tier string, index int) json.RawMessage {
 		p.Cfg.ClockPermille = 60
 	case 11:
 		// directed: one document write of the receiving side fails while it pulls
-		p.Direction, p.Faulty, p.FaultOn = "pull", true, "active-doc-writes"
+		p.Direction, p.Faulty, p.FaultOn, p.Continuous, p.Legacy = "pull", true, "active-doc-writes", true, false
 		p.Tasks = [][]c06Op{
 			{{Kind: "put", Side: 1, Doc: 0}, {Kind: "put", Side: 1, Doc: 1}},
 			{{Kind: "idle", Ms: 200}, {Kind: "put", Side: 1, Doc: 2}, {Kind: "idle", Ms: 7000}},
@@ -158,8 +187,11 @@ func c06Shrink(raw json.RawMessage) []json.RawMessage {
 // c06Differ compares what the statement names: the current revision (its current version: this replication
 // speaks the version-vector protocol, under which the two sides' revision-tree ids may differ), the body and
 // the tombstone state.
-func c06Differ(a, b c06DocState) bool {
-	sameRevision := a.CV == b.CV || a.Rev == b.Rev // version-vector protocol: current version; legacy protocol: revision-tree id
+func c06Differ(a, b c06DocState, legacy bool) bool {
+	sameRevision := a.CV == b.CV || a.Rev == b.Rev // version-vector protocol: current version (the revision-tree ids may differ)
+	if legacy {
+		sameRevision = a.Rev == b.Rev // legacy protocol: revision-tree id
+	}
 	return a.Exists != b.Exists || !sameRevision || a.Deleted != b.Deleted || a.Tok != b.Tok
 }
 
@@ -170,7 +202,7 @@ func c06Budget(err error, w *restWorld, p c06Plan, where string) *verifsim.Viola
 		return infraOrBudget(err)
 	}
 	v := verifsim.Vf("C06", "not-converged", "%s replication: %s: the step budget is used up without the system coming to rest (connections dialled %d, refused %d, severed %d)", p.Direction, where, w.net.Dialled, w.net.Refused, w.net.Severed)
-	if w.net.Seen[c06LegacyAccepted] > 0 {
+	if w.net.Seen[c06LegacyAccepted] > 0 && !p.Legacy {
 		v.Key = "legacy-protocol-fallback-after-failed-handshake"
 	}
 	if w.net.Dialled > 1000 {
@@ -187,18 +219,27 @@ type c06DocState struct {
 	Exists  bool
 }
 
-func c06Run(env *verifsim.Env, raw json.RawMessage) *verifsim.Violation {
+func c06RunAs(env *verifsim.Env, raw json.RawMessage, prop string) *verifsim.Violation {
 	var p c06Plan
 	if err := json.Unmarshal(raw, &p); err != nil {
 		panic(err)
 	}
+	if prop == "C17S" {
+		mon := newC17Mon(env, p)
+		_ = c06Body(env, p, mon) // convergence is C06's business
+		return mon.result()
+	}
+	return c06Body(env, p, nil)
+}
+
+func c06Body(env *verifsim.Env, p c06Plan, mon *c17Mon) *verifsim.Violation {
 	s := env.Sim
 	w := newRestWorld(env)
 	defer w.close()
 	s.SetFaultsEnabled(false) // faults belong to the workload, not to node start-up
 	w.net.Watch = []string{c06LegacyAccepted}
 	ao, po := p.Node, p.Node
-	ao.DBName, ao.SGReplicate = "adb", true
+	ao.DBName, ao.SGReplicate, ao.LegacyRepl = "adb", true, p.Legacy
 	po.DBName = "pdb"
 	passive, err := w.startNode("passive", po, nil)
 	if err != nil {
@@ -212,12 +253,25 @@ func c06Run(env *verifsim.Env, raw json.RawMessage) *verifsim.Violation {
 	// document writes that failed on an injected storage error, per side
 	var errMu sync.Mutex
 	errDocs := [2]map[string]bool{{}, {}}
+	rerunWrites := -1 // >= 0 while the caught-up replication is re-run: document writes seen on either side
+	var rerunKeys []string
 	watch := func(side int, n *restNode) {
 		n.node.Observe = func(oi simstore.OpInfo) {
 			if oi.Alt == simstore.AltErr && oi.Write && oi.Class == "doc" {
 				errMu.Lock()
 				errDocs[side][oi.Key] = true
 				errMu.Unlock()
+			}
+			if oi.Write && oi.Class == "doc" && oi.Err == nil {
+				errMu.Lock()
+				if rerunWrites >= 0 {
+					rerunWrites++
+					rerunKeys = append(rerunKeys, fmt.Sprintf("%s on %s (%s)", oi.Key, []string{"active", "passive"}[side], oi.Op))
+				}
+				errMu.Unlock()
+			}
+			if mon != nil {
+				mon.observe(side, n, w, oi)
 			}
 		}
 	}
@@ -313,7 +367,25 @@ func c06Run(env *verifsim.Env, raw json.RawMessage) *verifsim.Violation {
 			}
 			c, _ := n.adminReq("PUT", path, fmt.Sprintf(`{"tok":%q}`, tok))
 			rec.End(c, nil)
-		case "repl-stop", "repl-start", "repl-reset":
+		case "repl-reset":
+			// an operator's reset: stop, wait until it is stopped, forget the checkpoint, start again
+			rec := t.Begin(op.Kind, nil)
+			nodes[0].adminReq("PUT", "/adb/_replicationStatus/r1?action=stop", "")
+			for i := 0; i < 50; i++ {
+				var st map[string]any
+				nodes[0].adminJSON("GET", "/adb/_replicationStatus/r1", "", &st)
+				if state, _ := st["status"].(string); state == "stopped" || state == "error" {
+					break
+				}
+				time.Sleep(100 * time.Millisecond)
+			}
+			c, _ := nodes[0].adminReq("PUT", "/adb/_replicationStatus/r1?action=reset", "")
+			nodes[0].adminReq("PUT", "/adb/_replicationStatus/r1?action=start", "")
+			if c == 200 {
+				s.Probe("c06.reset-done")
+			}
+			rec.End(c, nil)
+		case "repl-stop", "repl-start":
 			rec := t.Begin(op.Kind, nil)
 			action := strings.TrimPrefix(op.Kind, "repl-")
 			c, _ := nodes[0].adminReq("PUT", "/adb/_replicationStatus/r1?action="+action, "")
@@ -346,7 +418,7 @@ func c06Run(env *verifsim.Env, raw json.RawMessage) *verifsim.Violation {
 	if err := s.DriveAll(); err != nil {
 		if errors.Is(err, verifsim.ErrStepBudget) {
 			v := verifsim.Vf("C06", "not-converged", "%s replication: the writers did not finish: %d scheduler steps used up (connections dialled %d, refused %d, severed %d)", p.Direction, s.Steps(), w.net.Dialled, w.net.Refused, w.net.Severed)
-			if w.net.Seen[c06LegacyAccepted] > 0 {
+			if w.net.Seen[c06LegacyAccepted] > 0 && !p.Legacy {
 				v.Key = "legacy-protocol-fallback-after-failed-handshake"
 			}
 			if w.net.Dialled > 1000 {
@@ -416,7 +488,7 @@ func c06Run(env *verifsim.Env, raw json.RawMessage) *verifsim.Violation {
 				var status map[string]any
 				_ = status
 				v := verifsim.Vf("C06", "not-converged", "%s replication: after the last write and fault the system keeps working without converging: %d scheduler steps used up in round %d of the convergence window (connections dialled %d)", p.Direction, s.Steps(), round, w.net.Dialled)
-				if w.net.Seen[c06LegacyAccepted] > 0 {
+				if w.net.Seen[c06LegacyAccepted] > 0 && !p.Legacy {
 					v.Key = "legacy-protocol-fallback-after-failed-handshake"
 				}
 				if w.net.Dialled > 1000 {
@@ -444,7 +516,7 @@ func c06Run(env *verifsim.Env, raw json.RawMessage) *verifsim.Violation {
 			for i := 0; i < c06Docs; i++ {
 				a, b := states[0][docID(i)], states[1][docID(i)]
 				sig = append(sig, fmt.Sprintf("%+v|%+v", a, b))
-				if c06Differ(a, b) {
+				if c06Differ(a, b, p.Legacy) {
 					equal = false
 				}
 			}
@@ -459,13 +531,13 @@ func c06Run(env *verifsim.Env, raw json.RawMessage) *verifsim.Violation {
 		}
 		last = cur
 		if equal && stable >= 2 {
-			return nil
+			return c06Rerun(s, w, p, nodes, &errMu, &rerunWrites, &rerunKeys)
 		}
 	}
 	var diffs []string
 	for i := 0; i < c06Docs; i++ {
 		a, b := states[0][docID(i)], states[1][docID(i)]
-		if c06Differ(a, b) {
+		if c06Differ(a, b, p.Legacy) {
 			diffs = append(diffs, fmt.Sprintf("%s: active %+v, passive %+v", docID(i), a, b))
 		}
 	}
@@ -473,7 +545,7 @@ func c06Run(env *verifsim.Env, raw json.RawMessage) *verifsim.Violation {
 	var status map[string]any
 	_ = s.Call("status", func() { nodes[0].adminJSON("GET", "/adb/_replicationStatus/r1", "", &status) })
 	vio := verifsim.Vf("C06", "not-converged", "%s replication (resolver %s): 60 simulated seconds after the last write and fault the peers still differ: %v (replication status %v; last start request answered %q)", p.Direction, p.Resolver, diffs, status, lastStart)
-	if w.net.Seen[c06LegacyAccepted] > 0 {
+	if w.net.Seen[c06LegacyAccepted] > 0 && !p.Legacy {
 		// recorded finding: a connection attempt that failed during the handshake made the replicator fall back to the
 		// revision-tree protocol for that connection
 		vio.Key = "legacy-protocol-fallback-after-failed-handshake"
@@ -488,7 +560,7 @@ func c06Run(env *verifsim.Env, raw json.RawMessage) *verifsim.Violation {
 		errMu.Lock()
 		for i := 0; i < c06Docs; i++ {
 			a, b := states[0][docID(i)], states[1][docID(i)]
-			if c06Differ(a, b) && !errDocs[1][docID(i)] {
+			if c06Differ(a, b, p.Legacy) && !errDocs[1][docID(i)] {
 				explained = false
 			}
 		}
@@ -498,4 +570,43 @@ func c06Run(env *verifsim.Env, raw json.RawMessage) *verifsim.Violation {
 		}
 	}
 	return vio
+}
+
+// c06Rerun judges the last sentence of the statement: re-running a caught-up replication transfers no revisions.
+// The replication is stopped and started again (it resumes from its checkpoint, which may lie behind what was
+// transferred); whatever it re-examines, no document may be written on either side.
+func c06Rerun(s *verifsim.Sim, w *restWorld, p c06Plan, nodes []*restNode, mu *sync.Mutex, writes *int, keys *[]string) *verifsim.Violation {
+	if cerr := s.Call("rerun-stop", func() { nodes[0].adminReq("PUT", "/adb/_replicationStatus/r1?action=stop", "") }); cerr != nil {
+		return c06Budget(cerr, w, p, "stopping the caught-up replication")
+	}
+	if err := s.Settle(3*time.Second, 100*time.Millisecond); err != nil {
+		return c06Budget(err, w, p, "stopping the caught-up replication")
+	}
+	dialled := w.net.Dialled
+	mu.Lock()
+	*writes = 0
+	mu.Unlock()
+	started := ""
+	if cerr := s.Call("rerun-start", func() {
+		code, body := nodes[0].adminReq("PUT", "/adb/_replicationStatus/r1?action=start", "")
+		started = fmt.Sprintf("%d %s", code, body)
+	}); cerr != nil {
+		return c06Budget(cerr, w, p, "re-running the caught-up replication")
+	}
+	if err := s.Settle(8*time.Second, 100*time.Millisecond); err != nil {
+		return c06Budget(err, w, p, "re-running the caught-up replication")
+	}
+	mu.Lock()
+	defer mu.Unlock()
+	n := *writes
+	*writes = -1
+	if w.net.Dialled == dialled {
+		s.Probe("c06.rerun-did-not-connect")
+		return nil
+	}
+	s.Probe("c06.rerun-judged")
+	if n > 0 {
+		return verifsim.Vf("C06", "rerun-transfers", "%s replication: the peers had converged; stopping and starting the replication again wrote %d document(s): %v (start request answered %q)", p.Direction, n, *keys, started)
+	}
+	return nil
 }
